@@ -296,6 +296,10 @@ class Run(Oracles):
             c = [t.tid for t in tasks]
         elif kind == "neg":
             return -1 - k
+        elif kind == "frac":
+            # no id at all: half way between two ids (never issued, whatever is running)
+            c = [t.tid for t in tasks if not t.body_done and not t.forgotten and not t.finished()]
+            return (c[k % len(c)] if c else k) + 0.5  # type: ignore[return-value]
         else:
             c = []
         if not c:
